@@ -114,6 +114,17 @@ class Exec:
                 if isinstance(i, int):
                     return base[i]
             return ("opaque", src(e))
+        if isinstance(e, ast.IfExp):
+            t_ = self.ev(e.test, g, loc)
+            if isinstance(t_, bool):
+                return self.ev(e.body if t_ else e.orelse, g, loc)
+            return ("opaque", src(e))
+        if isinstance(e, ast.ListComp) and len(e.generators) == 1 and not e.generators[0].ifs and \
+                isinstance(e.generators[0].iter, ast.Call) and src(e.generators[0].iter.func) == "range" and len(e.generators[0].iter.args) == 1:
+            n_ = self.ev(e.generators[0].iter.args[0], g, loc)
+            if isinstance(n_, int) and not isinstance(n_, bool) and 0 <= n_ <= 8:
+                return [self.ev(e.elt, g, loc) for _ in range(n_)]
+            raise ModelError(f"number of buffers `{src(e.generators[0].iter.args[0])}` is not concrete")
         if isinstance(e, ast.Call):
             f = e.func
             name = f.attr if isinstance(f, ast.Attribute) else f.id if isinstance(f, ast.Name) else ""
@@ -136,6 +147,14 @@ class Exec:
                     if lay_ext is None or lay_shp is None or lay_ext != lay_shp:
                         raise ModelError(f"view `{src(e)[:70]}` is not (first <layout>.size elements).reshape(<same layout>.shape)")
                     return ("view", b[1], lay_shp)
+                if isinstance(b, tuple) and b[0] == "view":
+                    # the whole view in another shape: still all the data of that layout
+                    return b
+                return ("opaque", src(e))
+            if name in ("ravel",):
+                b = self.ev(f.value, g, loc)
+                if isinstance(b, tuple) and b[0] == "view":
+                    return b
                 return ("opaque", src(e))
             if name == "flatten" or name == "copy":
                 b = self.ev(f.value, g, loc)
@@ -278,6 +297,8 @@ class Exec:
             else:
                 g.contents[b] = dict(cur=False, saved=False, layout=None)
                 g.events.append(("partial-copy", src(st)[:80]))
+        elif isinstance(val, tuple) and val and val[0] == "opaque":
+            raise ModelError(f"value stored into a buffer of the grid is not recognised: `{src(st)[:70]}`")
         else:
             g.contents[b] = dict(cur=False, saved=False, layout=None)
 
